@@ -170,7 +170,10 @@ Theorem C12_one_per_visit : forall (A : Type) (ops : app_ops A) (ins : list (Z *
 Proof. exact one_gap_request_per_visit. Qed.
 Print Assumptions C12_one_per_visit.
 
-(* The GAP step of a token visit: a poll in PassToken{do_gap: Yes} either does nothing (PHY busy / pause not over) or
+(* The GAP step of a token visit.  Since the F20 repair the step is normally taken at the end of the last poll of the
+   token-use states (do_use_token ends in do_pass_token: C12_poll_transmissions / C12_gap_state_frame cover that poll);
+   the state PassToken{do_gap: Yes} is only left standing when that poll had to wait for the synchronisation pause.
+   A poll in PassToken{do_gap: Yes} either does nothing (PHY busy / pause not over) or
    performs exactly gap_visit_step (advance the cursor / count a rotation / restart the sweep), transmits the status
    request iff the new GAP state is DoPoll a, and passes the token otherwise. *)
 Theorem C12_visit_performs_gap_step : forall (A : Type) (ops : app_ops A) (f : fdl) (now : Z) (pin : phy_in)
